@@ -228,7 +228,7 @@ class Server:
         self.proc = None
         self.master_pid = None
         self.argv_extra = list(argv_extra or [])
-        with open(os.path.join(self.dir, "app.py"), "w") as f:
+        with open(os.path.join(self.dir, "vapp.py"), "w") as f:
             f.write(app_source or APP_SOURCE)
         self.write_conf()
 
@@ -253,7 +253,12 @@ class Server:
         env.pop("GUNICORN_CMD_ARGS", None)
         env.update(self.env)
         self.stderr_path = os.path.join(self.dir, "stderr.log")
-        self.proc = subprocess.Popen([common.PY, "-m", "gunicorn", "-c", self.conf_path] + self.argv_extra + ["app:app"],
+        # a launcher identical to the `gunicorn` console script, kept in the scratch dir: a USR2 re-exec
+        # (START_CTX: sys.executable + sys.argv) then starts from the same place with the same import path
+        launcher = os.path.join(self.dir, "gunicorn_launcher.py")
+        with open(launcher, "w") as f:
+            f.write("import sys\nfrom gunicorn.app.wsgiapp import run\nif __name__ == '__main__':\n    sys.exit(run())\n")
+        self.proc = subprocess.Popen([common.PY, launcher, "-c", self.conf_path] + self.argv_extra + ["vapp:app"],
                                      cwd=self.dir, env=env, stdout=open(self.stderr_path, "ab"),
                                      stderr=subprocess.STDOUT, start_new_session=True)
         self.master_pid = self.proc.pid
